@@ -76,6 +76,33 @@ def _():
         except ValueError: pass
     return True
 
+def PM(s):
+    from poetry.core.version.markers import parse_marker
+    return parse_marker(s)
+@w("D10")
+def _():
+    m = PM('"3.8" <= python_version'); e = PM("'foo' == extra")
+    return m.validate({"python_version": "3.9"}) and not m.validate({"python_version": "3.7"}) and e.validate({"extra": {"foo"}})
+@w("D15")
+def _():
+    from poetry.core.packages.utils.utils import create_nested_marker
+    return bool(str(PM(create_nested_marker("python_version", C("3.*,<=3.8")))))
+@w("D23")
+def _():
+    a = PM('"arm64" not in platform_machine'); b = PM('platform_machine not in "arm64"')
+    return a != b and b.validate({"platform_machine": "arm64e"})
+@w("D12b")
+def _():
+    from poetry.core.version.markers import AnyMarker, EmptyMarker
+    m = PM('(sys_platform == "a" and os_name == "b") or (python_version >= "3.6" and os_name == "c")')
+    n = PM('(sys_platform == "a" or os_name == "b") and (python_version >= "3.6" or os_name == "c")')
+    return "<empty>" not in str(m.union(EmptyMarker())) and "()" not in str(n.intersect(AnyMarker())) and str(m.union(EmptyMarker())) == str(m)
+@w("D13")
+def _():
+    from poetry.core.packages.utils.utils import create_nested_marker
+    m = PM(create_nested_marker("python_version", C("^3")))
+    return m.validate({"python_version": "3.9", "python_full_version": "3.9.1"})
+
 if __name__ == "__main__":
     ids = sys.argv[1:] or list(W)
     bad = 0
